@@ -19,7 +19,7 @@ for p in ALL:
         engine="coq-model+correspondence",
         level_claimed=dict(category="proof", text=c.get("level_text", ""), design_ref=c.get("design_ref", "DESIGN.md section 6, " + p)),
         level_note=c.get("level_note", ""),
-        technique=c.get("technique", "Coq 8.16 theorems over an executable Gallina model; model tied to the Go source by a regenerated constant/table translator and a differential correspondence check against the extracted model"),
+        technique=c.get("technique", "machine-checked proof in Coq 8.16: theorems (induction, invariants, refinement) over an executable Gallina model; the model is tied to the Go source on every run by source-to-Gallina translators whose output is proved equal to the model (nine translators: tables, locking protocol, middleware.go, config.go, helpers, byte-level loops and pattern.go, cfgerrors.All, radix.go, asciiset.go) and by a differential correspondence check of the real implementation against the extracted model"),
     ))
 na = [dict(property_id=p, reason="check not built yet in this round (work in progress; see DESIGN.md section 10)") for p in ALL if p not in PROPS or not PROPS[p].get("claimed", True)]
 m = dict(
@@ -30,7 +30,7 @@ m = dict(
                baseline_off_cmd="cd /repo && go test -vet=off -count=1 ./...",
                source_commits=[], add_only=True),
     engines=[dict(name="coq-model+correspondence", path="/verif/check", serves_properties=[c["property_id"] for c in checks],
-                  kind_free_text="machine-checked proof (Coq 8.16.1) over a hand-written executable model; gentables translator + Go/OCaml differential correspondence on every run")],
+                  kind_free_text="machine-checked proof (Coq 8.16.1) over an executable model; nine source translators regenerated and re-proved equal to the model on every run + Go/OCaml differential correspondence on every run")],
     checks=checks,
     notes="Three genuine defects were repaired in /repo by fix: commits (see known_findings.txt and DESIGN.md section 7).",
     not_applicable=na,
